@@ -24,6 +24,11 @@ claimed = {
          "Every generator font (3 outline kinds x glyph counts x shape rotations x names/encodings/FD layouts x 4 cmap layouts x 5 layout-table combinations, every metadata field deviating to each of its boundary values, d=1 quick / d=2 thorough) is written and read: the result must equal normalForm(F) field by field, a second cycle must be a fixed point with identical bytes, and two writes of one font must agree. Accepted files: 12 gofont TTFs, x/image test fonts, and all 2^11 subsets of optional tables removed from a generated glyf and CFF file.",
          "normalForm encodes the documented representation limits (Version to 3 decimals, angle to 16.16, naming rules for bold/italic/regular, nil widths == zero widths, synthetic liga table); ScriptList keys are generated in canonical -x- form; byte reproducibility is observed over Go's randomised map iteration (two writes per font), not yet over a controlled map-order seam.",
          "DESIGN.md 4/C01"),
+ "C12": ("model_checking",
+         "bounded exhaustive enumeration: boundary-value deviations (d<=2) of every Info field, all width vectors / caret slopes / version values, derived fields recomputed from definitions",
+         "head, maxp, OS/2 and post Info values with every field at its boundary values (<= 2 fields deviating, every flag, every code-page bit) must satisfy Read(Encode(x)) == normalForm(x); hmtx/hhea: all width vectors of length 1..5/6 over {0,500,501} x extents x explicit/implicit LSB, with advanceWidthMax, min LSB/RSB, xMaxExtent, numberOfHMetrics recomputed from their definitions on the raw bytes; all coprime caret slopes; all 2^17 low Version values; for every generator font the head bbox, xAvgCharWidth, first/last char index and the metric queries are checked against the outlines.",
+         "normal form: OS/2 Unicode-range bit 57 is derived, non-positive cap/x-height == unset, fsSelection REGULAR excludes BOLD/ITALIC (skipped), Vendor is a 4-character tag, post italic angle is 16.16.",
+         "DESIGN.md 4/C12"),
 }
 checks = []
 na = []
